@@ -19,6 +19,7 @@
 //!   closure <fnpath> ;; <pat> ;; <signature> ;; <call args>   closure expression applied: `(<closure>)(<args>)`
 //!   macro_block <fnpath> ;; <macro> ;; <anchor> ;; <signature> ;; <ret>   `{..}` arm inside a macro (tokio::select!)
 //!   items_in <fnpath> ;; <prefix>       item statements declared inside a fn body, emitted at module level
+//!   ifcond <fnpath> ;; <stmt prefix> ;; <signature>   the condition of the `if` a statement starts with
 //!   sql   <fnpath> ;; <pat> ;; <CONST_NAME>      string literal starting with pat -> pub const
 //! <fnpath> is `name` or `Type::name` or `Trait@Type::name`. A pattern matches a statement or
 //! expression whose whitespace-free token text starts with the whitespace-free pattern; `#n`
@@ -245,6 +246,9 @@ fn split_nth(pat: &str) -> (String, usize) {
 struct ContinueRewriter {
     depth: usize,
     with: Expr,
+    /// also rewrite a bare `return;` (of the function the slice was cut from) into `return <ret>`
+    bare_return: Option<Expr>,
+    closure_depth: usize,
 }
 impl VisitMut for ContinueRewriter {
     fn visit_expr_mut(&mut self, e: &mut Expr) {
@@ -254,15 +258,22 @@ impl VisitMut for ContinueRewriter {
                     *e = self.with.clone();
                 }
             }
+            Expr::Return(r) if r.expr.is_none() && self.closure_depth == 0 => {
+                if let Some(w) = &self.bare_return {
+                    *e = w.clone();
+                }
+            }
             Expr::ForLoop(_) | Expr::While(_) | Expr::Loop(_) => {
                 self.depth += 1;
                 visit_mut::visit_expr_mut(self, e);
                 self.depth -= 1;
             }
             Expr::Closure(_) | Expr::Async(_) => {
-                // a `continue` cannot cross a closure / async block boundary
+                // a `continue` / `return` cannot cross a closure / async block boundary
                 let d = std::mem::replace(&mut self.depth, 1);
+                self.closure_depth += 1;
                 visit_mut::visit_expr_mut(self, e);
+                self.closure_depth -= 1;
                 self.depth = d;
             }
             _ => visit_mut::visit_expr_mut(self, e),
@@ -689,7 +700,8 @@ fn main() {
                         Some(r) => syn::parse_quote!(return #r),
                         None => syn::parse_quote!(return),
                     };
-                    let mut rw = ContinueRewriter { depth: 0, with };
+                    let bare_return: Option<Expr> = ret.as_ref().map(|r| syn::parse_quote!(return #r));
+                    let mut rw = ContinueRewriter { depth: 0, with, bare_return, closure_depth: 0 };
                     for s in stmts.iter_mut() {
                         rw.visit_stmt_mut(s);
                     }
@@ -718,7 +730,7 @@ fn main() {
                 // is wrapped in Some(..) (the emitted fn's signature returns Option<_>)
                 let item: ItemFn = if kw == "expr1" {
                     let mut e = e.clone();
-                    let mut rw = ContinueRewriter { depth: 0, with: syn::parse_quote!(return None) };
+                    let mut rw = ContinueRewriter { depth: 0, with: syn::parse_quote!(return None), bare_return: None, closure_depth: 0 };
                     rw.visit_expr_mut(&mut e);
                     syn::parse2(quote!(pub #sig { Some(#e) })).unwrap()
                 } else {
@@ -774,12 +786,24 @@ fn main() {
                 let mut b = hit.unwrap_or_else(|| die(&format!("{ctx}: no `{{..}}` block after `{}` in any `{}!` invocation", parts[2], parts[1])));
                 let sig: syn::Signature =
                     syn::parse_str(parts[3]).unwrap_or_else(|e| die(&format!("{ctx}: bad signature: {e}")));
-                let ret: Expr = syn::parse_str(parts[4]).unwrap_or_else(|e| die(&format!("{ctx}: bad return expression: {e}")));
-                let mut rw = ContinueRewriter { depth: 0, with: syn::parse_quote!(return #ret) };
-                rw.visit_block_mut(&mut b);
-                let stmts = &b.stmts;
-                let item: ItemFn = syn::parse2(quote!(pub #sig { #(#stmts)* #ret })).unwrap();
-                out.items.push(Item::Fn(item));
+                if parts[4] == "@value" {
+                    // the arm's block VALUE is what the select! yields: emit `ArmOutcome::Value(<block>)`;
+                    // an outer `continue` becomes `return ArmOutcome::Continue`, a bare `return` becomes
+                    // `return ArmOutcome::Return` (venv::ArmOutcome)
+                    let cont: Expr = syn::parse_quote!(return ArmOutcome::Continue);
+                    let retn: Expr = syn::parse_quote!(return ArmOutcome::Return);
+                    let mut rw = ContinueRewriter { depth: 0, with: cont, bare_return: Some(retn), closure_depth: 0 };
+                    rw.visit_block_mut(&mut b);
+                    let item: ItemFn = syn::parse2(quote!(pub #sig { ArmOutcome::Value(#b) })).unwrap();
+                    out.items.push(Item::Fn(item));
+                } else {
+                    let ret: Expr = syn::parse_str(parts[4]).unwrap_or_else(|e| die(&format!("{ctx}: bad return expression: {e}")));
+                    let mut rw = ContinueRewriter { depth: 0, with: syn::parse_quote!(return #ret), bare_return: None, closure_depth: 0 };
+                    rw.visit_block_mut(&mut b);
+                    let stmts = &b.stmts;
+                    let item: ItemFn = syn::parse2(quote!(pub #sig { #(#stmts)* #ret })).unwrap();
+                    out.items.push(Item::Fn(item));
+                }
             }
             "items_in" => {
                 // item statements (consts, fns) declared INSIDE a function body, emitted at module level
@@ -801,6 +825,31 @@ fn main() {
                 if n == 0 {
                     die(&format!("{ctx}: no item statement starting with `{}`", parts[1]));
                 }
+            }
+            "ifcond" => {
+                // the CONDITION of the `if` that a `let x = if <cond> {..} else {..};` statement (or an
+                // `if` expression statement) starts with; anchored on the stable statement prefix
+                let parts: Vec<&str> = rest.split(";;").map(|s| s.trim()).collect();
+                if parts.len() != 3 {
+                    die(&format!("{ctx}: ifcond needs 3 parts (fn, statement prefix, signature)"));
+                }
+                let block = find_fn_block(src, parts[0]);
+                let (start, nth) = split_nth(parts[1]);
+                let mut f = StmtFinder { start, nth, seen: 0, end: "$".to_string(), result: None, err: None };
+                f.visit_block(block);
+                let stmts = f.result.unwrap_or_else(|| die(&format!("{ctx}: statement not found")));
+                let cond: Expr = match stmts[0] {
+                    Stmt::Local(l) => match l.init.as_ref().map(|i| &*i.expr) {
+                        Some(Expr::If(i)) => (*i.cond).clone(),
+                        _ => die(&format!("{ctx}: the let statement is not initialised by an `if`")),
+                    },
+                    Stmt::Expr(Expr::If(i), _) => (*i.cond).clone(),
+                    _ => die(&format!("{ctx}: statement is neither `let .. = if` nor `if`")),
+                };
+                let sig: syn::Signature =
+                    syn::parse_str(parts[2]).unwrap_or_else(|e| die(&format!("{ctx}: bad signature: {e}")));
+                let item: ItemFn = syn::parse2(quote!(pub #sig { #cond })).unwrap();
+                out.items.push(Item::Fn(item));
             }
             "sql" => {
                 let parts: Vec<&str> = rest.split(";;").map(|s| s.trim()).collect();
